@@ -133,6 +133,9 @@ void EventLoop::loop()
     MUDUO_VERIF_POINT("EventLoop::loop:afterFunctors", this);
   }
   MUDUO_VERIF_POINT("EventLoop::loop:exit", this);
+  // functors queued before quit() was called must still run: the last swap may
+  // have happened before they were queued (e.g. connectDestroyed from ~TcpServer)
+  doPendingFunctors();
 
   LOG_TRACE << "EventLoop " << this << " stop looping";
   looping_ = false;
